@@ -126,7 +126,11 @@ class Hist:
             n = rng.choice([0, 1, 2, 5, 5, 10, 40, 130, 300])
             alphabet = "abcXYZ019_-+é"
             txt = "".join(rng.choice(alphabet) for _ in range(n)) if rng.random() < 0.7 else rng.choice("ab") * n
-            op = f"v{i}:{hexs((rng.choice('sS') + txt).encode('utf-8'))}"
+            raw = txt.encode("utf-8")
+            if rng.random() < 0.12:
+                # not valid UTF-8 (latin-1 text, stray bytes): reported through from_utf8_lossy; the four choices keep distinct images
+                raw = rng.choice([b"caf\xe9", b"\xffx", b"\xe9\xe9", b"ab\xc3"])
+            op = f"v{i}:{hexs(rng.choice(b'sS').to_bytes(1, 'big') + raw)}"
         self.last[i] = op
         self.ops.append(op)
 
